@@ -132,7 +132,10 @@ class BehavioralRTLIRTypeCheckVisitorL2( BehavioralRTLIRTypeCheckVisitorL1 ):
       # rt.Wire here instead of rt.NetWire
       target.Type = rt.Wire( rhs_type.get_dtype() )
       s.tmpvars[ tmpvar_id ] = rt.Wire( rhs_type.get_dtype() )
-      s.tmpvars_is_explicit[ tmpvar_id ] = node.value._is_explicit
+      # A temporary that has held an explicitly sized value anywhere cannot be
+      # re-interpreted just because its last assignment is an integer literal
+      s.tmpvars_is_explicit[ tmpvar_id ] = node.value._is_explicit or \
+                                           s.tmpvars_is_explicit.get( tmpvar_id, False )
 
     else:
       # non-temporary assignment is an L1 thing
